@@ -7,8 +7,10 @@ import (
 	"context"
 	"crypto/ed25519"
 	"encoding/binary"
+	"fmt"
 	"io"
 	"sync"
+	"sync/atomic"
 	"time"
 
 	"github.com/aperturerobotics/bifrost/crypto"
@@ -223,6 +225,8 @@ type node struct {
 	ctx    context.Context
 	cancel context.CancelFunc
 	done   chan struct{}
+	// panicked: the value Execute panicked with
+	panicked atomic.Pointer[string]
 }
 
 var quietLog = func() *logrus.Entry {
@@ -244,16 +248,34 @@ func newNodeCfg(idx int, k *key, cfg *floodsub.Config) *node {
 	return &node{idx: idx, key: k, fs: ps.(*floodsub.FloodSub), ctx: ctx, cancel: cancel, done: make(chan struct{})}
 }
 
-// start runs Execute.
+// start runs Execute. A panic inside Execute (the loop itself, execPublish) is an observation, not
+// a crash of the engine: it is recorded and the router counts as dead (its mutex may be held).
 func (n *node) start() {
 	go func() {
+		defer close(n.done)
+		defer func() {
+			if r := recover(); r != nil {
+				s := fmt.Sprint(r)
+				n.panicked.Store(&s)
+			}
+		}()
 		_ = n.fs.Execute(n.ctx)
-		close(n.done)
 	}()
+}
+
+// dead reports the panic value of Execute ("" while it did not panic).
+func (n *node) dead() string {
+	if p := n.panicked.Load(); p != nil {
+		return *p
+	}
+	return ""
 }
 
 func (n *node) stop() {
 	n.cancel()
+	if n.dead() != "" {
+		return // the router's lock may be held by the goroutine that panicked
+	}
 	n.fs.Close()
 }
 
